@@ -350,7 +350,8 @@ func verifHashAgree(a, b Object) bool {
 //@ ensures[C16.map.setdefault.val] forallT(k, string, mhas(m, k) ==> mval(m, k) == ite(k == key && !old(mhas(m, key)), value, old(mval(m, k))))
 
 //@ func (*Map).Update
-//@ props C16
+//@ props C16 C05
+//@ commute 1
 //@ requires m != nil && m.items != nil && other != nil
 //@ modifies mapof(m.items)
 //@ invariant 1: forallT(k, string, mhas(m, k) == (old(mhas(m, k)) || (seen(k) && old(mhas(other, k))))) && forallT(k, string, mhas(m, k) ==> mval(m, k) == ite(seen(k) && old(mhas(other, k)), old(mval(other, k)), old(mval(m, k)))) && (m.items != other.items ==> forallT(k, string, mhas(other, k) == old(mhas(other, k)) && mval(other, k) == old(mval(other, k))))
@@ -358,7 +359,8 @@ func verifHashAgree(a, b Object) bool {
 //@ ensures[C16.map.update.val] m.items != other.items ==> forallT(k, string, mhas(m, k) ==> mval(m, k) == ite(old(mhas(other, k)), old(mval(other, k)), old(mval(m, k))))
 
 //@ func (*Map).Copy
-//@ props C16
+//@ props C16 C05
+//@ commute 1
 //@ requires m != nil
 //@ modifies nothing
 //@ invariant 1: fresh(items) && forallT(k, string, haskey(items, k) == (seen(k) && mhas(m, k))) && forallT(k, string, haskey(items, k) ==> items[k] == mval(m, k))
